@@ -29,7 +29,7 @@ open VgiVerif.JsonSchema (JV Schema Atom F Pat fullMatch)
 abbrev Key := VgiVerif.Gen.C34.Key
 namespace G
 export VgiVerif.Gen.C34 (schema msgLimit emptyFallback emitBase emitCond emitOnce pipeViaHelper httpMsgHelper telemetryOnce
-  okStatus unaryErr initRaise exchangeRaise exchangeOvershoot producerTurn sidAtInit sidOnHit sidOnMiss jsonAsciiOnly sentinelBase sentinelCond shedOrder
+  okStatus unaryErr initRaise exchangeRaise exchangeOvershoot producerTurn sidAtInit sidOnHit sidOnMiss refusedEmits jsonAsciiOnly sentinelBase sentinelCond shedOrder
   sentinelErrFallback egressCond egressOnce)
 end G
 
@@ -450,6 +450,13 @@ def exch (env : Env) (n : Nat) (m : StreamM) (pos : Nat) (over : Option Exn) : L
 /-- the cancel branch of `_run_stream_exchange_sync` -/
 def cancel (env : Env) (n : Nat) (m : StreamM) : List Record :=
   egress true (telemetry env (amb env (contSid env n none)) m.name { cancelled := true, requestState := true })
+
+/-- a continuation / exchange turn / cancel request the worker refuses before any dispatch shell (`_unpack_and_recover_state`
+raises: cursor or call token that does not open, is expired, was minted for another method or key, or names a call that
+cannot be resolved).  Nothing is dispatched.  If the code logs it at all it does so with the context the request has at that
+point: no stream id is published yet (`_current_stream_id` is still ""), status error, the refusal as the error. -/
+def refused (env : Env) (name : Str) (cause : Exn) (status : Nat) : List Record :=
+  if G.refusedEmits then egress true (telemetry env (amb env []) name { err := some cause, http := status }) else []
 
 /-! ### `HttpStreamSession`: which requests a call makes -/
 
